@@ -255,6 +255,7 @@ func (ord *Order) Normalize(normalizers tax.Normalizers) {
 	tax.Normalize(normalizers, ord.Supplier)
 	tax.Normalize(normalizers, ord.Customer)
 	applyCustomerRates(ord)
+	clearOwnTaxCountry(ord)
 	tax.Normalize(normalizers, ord.Buyer)
 	tax.Normalize(normalizers, ord.Seller)
 	tax.Normalize(normalizers, ord.Preceding)
